@@ -23,7 +23,7 @@ LEVEL_TEXT = ('Seeded sampling of acyclic reference graphs with targeted shapes 
               'each decided under all role subsets by the real enforcer and compared with reference expansion and with '
               'its own inlined variant; alias transparency is a property of infinitely many graphs, so structured sampling is the level.')
 LEVEL_NOTE = 'trusted: the reference evaluator with expansion; generated graphs are acyclic by construction (topological order)'
-PLAN = {'quick': dict(shards=4, wall=60), 'thorough': dict(shards=16, wall=400)}
+PLAN = {'quick': dict(shards=4, wall=120), 'thorough': dict(shards=16, wall=400)}
 MIN = {'overlapping_evaluations': 200, 'evaluations': 300, 'reference_decisions': 5000, 'inlined_comparisons': 200, 'current_rule_observations': 500,
        'undefined_reference_decisions': 100, 'three_arg_calls': 100, 'redefinition_decisions': 2000, 'unknown_name_direct_decisions': 1000, 'checker_tool_decisions': 500,
        'checker_tool_undefined_reference_decisions': 50,
